@@ -9,23 +9,37 @@ mkdir -p /verif/evidence/race
 export GORACE="${GORACE:-halt_on_error=0 exitcode=0 log_path=/verif/evidence/race/$ID}"
 cd /verif/harness || exit 2
 mkdir -p /verif/bin /verif/evidence
+# VERIF_REPO (tooling only, never set by the registered commands): monitor a scratch copy instead of /repo
+REPO="${VERIF_REPO:-/repo}"
+MODFLAG=""
+MODFILE=""
+if [ "$REPO" != /repo ]; then
+  MODFILE="/verif/bin/go-$ID-$$.mod"
+  sed "s#=> /repo#=> $REPO#" go.mod > "$MODFILE"
+  MODFLAG="-modfile=$MODFILE"
+  export VERIF_REPO
+fi
 BIN="/verif/bin/vcheck-$ID-$$"
 RACE=""
 case "$ID" in C09) RACE="-race";; esac
 if [ "${VERIF_RACE:-0}" = 1 ]; then RACE="-race"; fi
-trap 'rm -f "$BIN"' EXIT
+trap 'rm -f "$BIN" $MODFILE "/verif/bin/go-$ID-$$.sum" "/verif/bin/api_gen-$ID-$$.go" "/verif/bin/overlay-$ID-$$.json"' EXIT INT TERM
 LOG="/verif/bin/build-$ID-$$.log"
 # the table of package-level constructors is regenerated from /repo/jen, so that it matches the tree under test
 APITAG=""
-if go run ./cmd/apigen -o "cmd/vcheck/api_gen.go.$$" >"$LOG" 2>&1 && mv -f "cmd/vcheck/api_gen.go.$$" cmd/vcheck/api_gen.go; then
+OVERLAY=""
+APIGEN="/verif/bin/api_gen-$ID-$$.go"
+OVJSON="/verif/bin/overlay-$ID-$$.json"
+if go run $MODFLAG ./cmd/apigen -dir "$REPO/jen" -o "$APIGEN" >"$LOG" 2>&1; then
   APITAG="apigen"
+  printf '{"Replace": {"/verif/harness/cmd/vcheck/api_gen.go": "%s"}}\n' "$APIGEN" > "$OVJSON"
+  OVERLAY="-overlay=$OVJSON"
 else
-  rm -f "cmd/vcheck/api_gen.go.$$"
-  echo "note: API table could not be generated from /repo/jen; using the committed fallback table"
+  echo "note: API table could not be generated from $REPO/jen; using the committed fallback table"
 fi
-if ! go build $RACE -tags "verif $APITAG" -o "$BIN" ./cmd/vcheck >"$LOG" 2>&1; then
+if ! go build $MODFLAG $OVERLAY $RACE -tags "verif $APITAG" -o "$BIN" ./cmd/vcheck >"$LOG" 2>&1; then
   # the hook file may not follow an internal refactor: fall back to boundary-only monitoring
-  if ! go build $RACE -tags "$APITAG" -o "$BIN" ./cmd/vcheck >>"$LOG" 2>&1 && ! go build $RACE -o "$BIN" ./cmd/vcheck >>"$LOG" 2>&1; then
+  if ! go build $MODFLAG $OVERLAY $RACE -tags "$APITAG" -o "$BIN" ./cmd/vcheck >>"$LOG" 2>&1 && ! go build $MODFLAG $RACE -o "$BIN" ./cmd/vcheck >>"$LOG" 2>&1; then
     cat "$LOG"; rm -f "$LOG"
     echo "INCONCLUSIVE property=$ID reason=harness-or-repo-does-not-build"
     exit 2
@@ -35,7 +49,8 @@ fi
 rm -f "$LOG"
 export VERIF_BIN="$BIN"
 if [ "$MODE" = "--replay" ]; then
-  exec "$BIN" "$ID" --replay "${3:?replay file}"
+  "$BIN" "$ID" --replay "${3:?replay file}"
+  exit $?
 fi
 LIMIT=900; [ "$MODE" = thorough ] && LIMIT=5400
 timeout -s QUIT -k 10 "$LIMIT" "$BIN" "$ID" --tier "$MODE"
